@@ -24,6 +24,7 @@ site: http://bugseng.com/products/ppl/ . */
 #include "ppl-config.h"
 #include "Sparse_Row_defs.hh"
 #include "Dense_Row_defs.hh"
+#include <algorithm>
 
 namespace PPL = Parma_Polyhedra_Library;
 
@@ -34,7 +35,7 @@ public:
   Sparse_Row_from_Dense_Row_helper_iterator(const PPL::Dense_Row& r,
                                             PPL::dimension_type sz)
     : row(r), sz(sz), idx(0) {
-    if (row.size() != 0 && row[0] == 0) {
+    if (sz != 0 && row[0] == 0) {
       ++(*this);
     }
   }
@@ -107,8 +108,10 @@ PPL::Sparse_Row::Sparse_Row(const PPL::Dense_Row& row)
 
 PPL::Sparse_Row::Sparse_Row(const Dense_Row& row, dimension_type sz,
                             dimension_type capacity)
-  : tree(Sparse_Row_from_Dense_Row_helper_iterator(row, row.size()),
-         Sparse_Row_from_Dense_Row_helper_function(row, row.size())),
+  : tree(Sparse_Row_from_Dense_Row_helper_iterator(row,
+                                                   std::min(sz, row.size())),
+         Sparse_Row_from_Dense_Row_helper_function(row,
+                                                   std::min(sz, row.size()))),
     size_(sz) {
   (void)capacity;
   PPL_ASSERT(OK());
